@@ -516,7 +516,7 @@ def _plan_which(sc):
 
 
 def system_checks(ctx):
-    n = ctx.n(40, 400)
+    n = ctx.n(32, 400)
     scs = list(targeted().values()) + scenarios(ctx, n)
     try:
         res = run_impl(scs)
